@@ -299,6 +299,27 @@ pub fn cleanup_case(rng: &mut Rng) -> String {
         let bias: Vec<f64> = (0..m).map(|_| *rng.pick(&[0.0, 1.0, -1.0, 2.0, 3.0, -1.0, 4.0])).collect();
         p = Polytope::from_mats(Array2::zeros((m, 0)), Array1::from(bias));
     }
+    // near-duplicates for `remove_duplicate_rows`: a copy of a row with one coefficient moved by 2^-32 of the row's size
+    // (an angle of about 2e-10 between the normals: not a duplicate — far from the origin the two rows cut differently)
+    if op == 1 && p.indim() >= 2 && p.n_constraints() >= 1 && rng.chance(1, 3) {
+        let i = rng.below(p.n_constraints());
+        let j = rng.below(p.indim());
+        let mut r = p.mat.row(i).to_owned();
+        let size = r.iter().fold(0.0f64, |m, v| m.max(v.abs()));
+        if size > 0.0 {
+            r[j] += size * (2.0f64).powi(-32);
+            let (m, n) = (p.n_constraints(), p.indim());
+            let mut mat = Array2::<f64>::zeros((m + 1, n));
+            let mut bias = Array1::<f64>::zeros(m + 1);
+            for a in 0..m {
+                mat.row_mut(a).assign(&p.mat.row(a));
+                bias[a] = p.bias[a];
+            }
+            mat.row_mut(m).assign(&r);
+            bias[m] = p.bias[i];
+            p = Polytope::from_mats(mat, bias);
+        }
+    }
     let mut out = String::from("C15 ");
     let name = ["remove_tautologies", "remove_duplicate_rows", "remove_redundant", "normalize", "remove_zero_rows", "remove_rows", "remove_redundant"][op];
     write!(out, "{} ", name).unwrap();
